@@ -11,8 +11,8 @@ for d in sorted(os.listdir('/verif/seeded')):
   title = next((l.strip('# ').strip() for l in first if l.strip()), '')[:110]
   if det.get('applies') is False:
     verdict = 'does not apply to current HEAD'
-  elif det.get('still_a_bug') is False:
-    verdict = 'no longer a bug after a fix in /repo'
+  elif det.get('still_a_bug') is False and not any(c.get('detected') for c in det.get('checks', {}).values()):
+    verdict = 'its demonstration no longer fails after a later fix in /repo (not counted)'
   else:
     caught = [p for p, c in det.get('checks', {}).items() if c.get('detected')]
     missed = [p for p, c in det.get('checks', {}).items() if not c.get('detected')]
